@@ -96,8 +96,13 @@ class AdversarialStub:
 
     def cov(self, i):
         if self.mode == "auer":
-            return np.eye(self.output_dim) * (self.var_ratio[i] if self.track_variances else 1.0)
-        return self.base_cov[i] * (self.rho ** (self.n_updates + 2 * self.n_samples[i]))
+            if not self.track_variances:
+                return np.eye(self.output_dim)
+            # per-design AND per-objective empirical variances (widths differ across designs and objectives)
+            obj = np.array([1.0, 3.0, 0.4, 2.0])[: self.output_dim]
+            return np.diag(self.var_ratio[i] * obj)
+        # geometric shrinkage with a floor (std factor 1e-5): keeps the offsets representable next to the truth
+        return self.base_cov[i] * max(self.rho ** (self.n_updates + 2 * self.n_samples[i]), 1e-10)
 
     def predict(self, X):
         idx = np.asarray(X, float)[:, -1].astype(int) if self.by_index else self.locate(X)
@@ -421,8 +426,14 @@ def truth_inside(region, mu, conf):
         return bool(np.all(mu >= lo - tol) and np.all(mu <= up + tol))
     c, S, a = region
     d = mu - c
+    # the centre is stored as truth + offset in floating point: forgive a few ulps of |mu| in the distance
+    slack = 16 * np.finfo(float).eps * max(1.0, float(np.abs(mu).max()))
+    nd = float(np.linalg.norm(d))
+    if nd <= slack:
+        return True
+    d = d * (1 - slack / nd)
     q = float(d @ np.linalg.solve(S, d))
-    return q <= a * a * (1 + 1e-6) + 1e-18
+    return q <= a * a * (1 + 1e-6) + 1e-300
 
 
 def run(spec, max_steps=120, extra_steps=0, on_step=None):
